@@ -21,6 +21,11 @@ GHOST_MEM_DEFS
 #include "contracts/dl.h"
 #include "extracted_zalloc.c"
 #include "src/lib/dl/dl.c"
+#ifdef VERIF_WITH_MULTIPART_C
+/* zck_header_cb unit: the real multipart_get_boundary / reset_mp bodies are part of the verified text (their
+ * contracts were written for enforcement; as assumptions they cannot hand back freshly allocated patterns) */
+#include "src/lib/dl/multipart.c"
+#endif
 
 /* ---- harness state: a target context, up to three target chunks, up to three requested ranges ---- */
 typedef struct {
@@ -254,7 +259,7 @@ void h_dl_write_range_ctl(void) {
     V_ASSERT(r >= 0 && (size_t)r <= in.len, "C05,C17.dl_write_range.consumes_at_most_length");
     for(int i = 0; i < 2; i++) {
         V_ASSERT(valid0[i] != 1 || g_tg[i]->valid == 1, "C05.dl_write_range.valid_chunks_stay_valid");
-        V_ASSERT(valid0[i] != 1 || dl->tgt_check != g_tg[i], "C05.dl_write_range.a_valid_chunk_is_never_selected_for_filling");
+        V_ASSERT(valid0[i] != 1 || dl->tgt_check != g_tg[i] || dl->tgt_check == chk0, "C05.dl_write_range.a_valid_chunk_is_never_selected_for_filling");
         V_ASSERT(valid0[i] == -1 || g_tg[i]->valid != -1 || r == 0, "C05.dl_write_range.a_checksum_mismatch_makes_the_call_report_zero");
     }
     V_ASSERT(zck->error_state > 0 || dl_state_ok(&in, dl), "C05,C17.dl_write_range.state_invariant_kept_on_every_return");
@@ -282,6 +287,9 @@ static regex_t *mk_rx_dl(IN_dl *in, int i) {
     return r;
 }
 static zckDL *mk_cb_dl(IN_dl *in) {
+#ifdef VERIF_CB_MP
+    in->mp_null = 0;      /* write callback: a parser object exists (zck_dl_init; its allocation failure is advisory) */
+#endif
     zckCtx *zck = mk_tgt(in);
     for(int i = 0; i < 2; i++) {
         g_tg[i] = malloc(sizeof(zckChunk)); g_rg[i] = malloc(sizeof(zckChunk));
@@ -303,7 +311,7 @@ static zckDL *mk_cb_dl(IN_dl *in) {
     dl->tgt_check = in->chk < 0 ? NULL : g_tg[in->chk & 1];
     V_ASSUME(in->err0 > 0 || dl_state_ok(in, dl));
     dl->hdr_regex = mk_rx_dl(in, 0); dl->dl_regex = mk_rx_dl(in, 1); dl->end_regex = mk_rx_dl(in, 2);
-    V_ASSUME(dl->dl_regex == NULL || dl->end_regex != NULL);
+    V_ASSUME((dl->dl_regex == NULL) == (dl->end_regex == NULL));
     dl->mp = NULL;
     if(!in->mp_null) {
         dl->mp = malloc(sizeof(zckMP)); V_ASSUME(dl->mp != NULL); *dl->mp = in->anymp;
@@ -366,8 +374,28 @@ void h_zck_write_zck_header_cb(void) {
 }
 void h_zck_header_cb(void) {
     IN_dl in = nondet_IN_dl();
-    zckDL *dl = mk_cb_dl(&in);
-    if(in.zck_null) dl->zck = NULL;
+    /* parser side only: zck_header_cb never looks at the download state */
+    zckDL *dl = malloc(sizeof(*dl));
+    V_ASSUME(dl != NULL);
+    *dl = in.anydl;
+    dl->zck = NULL;
+    if(!in.zck_null) { dl->zck = malloc(sizeof(zckCtx)); V_ASSUME(dl->zck != NULL); *dl->zck = in.anyz; V_ASSUME(in.err0 >= 0 && in.err0 <= 2); dl->zck->error_state = in.err0; }
+    dl->hdr_regex = mk_rx_dl(&in, 0); dl->dl_regex = mk_rx_dl(&in, 1); dl->end_regex = mk_rx_dl(&in, 2);
+    V_ASSUME((dl->dl_regex == NULL) == (dl->end_regex == NULL));
+    dl->mp = NULL;
+    if(!in.mp_null) {
+        dl->mp = malloc(sizeof(zckMP)); V_ASSUME(dl->mp != NULL); *dl->mp = in.anymp;
+        dl->mp->buffer = NULL;
+        V_ASSUME(in.buffer_len <= 6);
+        if(in.buffer_len > 0) { dl->mp->buffer = malloc(in.buffer_len); V_ASSUME(dl->mp->buffer != NULL); dl->mp->buffer_len = in.buffer_len; }
+    }
+    dl->boundary = NULL;
+    if(in.has_boundary) {
+        V_ASSUME(in.boundary_len >= 0 && in.boundary_len <= 7);
+        dl->boundary = malloc(in.boundary_len + 1); V_ASSUME(dl->boundary != NULL);
+        dl->boundary[in.boundary_len] = 0;
+    }
+    dl->write_cb = in.wcb ? verif_user_wcb : NULL; dl->header_cb = in.hcb ? verif_user_wcb : NULL;
     V_ASSUME(in.l <= 24 && in.c <= 24 && in.l * in.c <= 24);
     size_t n = in.l * in.c;
     char *b = malloc(n);
